@@ -794,6 +794,18 @@ CachesLazy(n, o) ==
         \/ nd.k = "cached" /\ Lazy(nd.inner, x.o)
         \/ nd.k = "ds" /\ Lazy(x.n, x.o)
 
+\* The same demands identified by what the dataset DEPENDS ON: the caller-side options restricted to the keys it reports
+\* (the memo key of the implementation; sufficiency of that key set is the invariant KeysSufficient).  Two dictionaries
+\* that differ only in options a pre-set value shadows, or a branch not taken mentions, are ONE demand here although
+\* Dem tells them apart.  Where keys() fails or a failure was recovered from (KeyBlind) the coarser identity of Dem
+\* is kept.  Used across the evaluations of a history (C02, "runs-per-history").
+DemK(n, o) ==
+    {LET nd == NodeRec(x.n) o2 == DsOptions(nd, x.o) k == KeysOf(x.n, x.o) IN
+     [d |-> BaseOf(x.n),
+      oe |-> IF k.ok /\ ~KeyBlind(x.n, x.o) THEN Restrict(x.o, k.ks)
+             ELSE Restrict(o2, {p \in Mentions(x.n) : Has(p, o2)})] :
+        x \in {y \in Visit(n, o) : NodeRec(y.n).k = "ds"}}
+
 \* permitted body runs per dataset node in ONE evaluation with cold caches: one per distinct demand
 Permit(n, o) ==
     LET ds == Dem(n, o)
